@@ -6,12 +6,18 @@ claimed={
  'C04':dict(text="Proof: every obligation generated from the current source of the marks functions (IsMarked, HasMark, Marks, Unmark, Mark, WithMarks, WithSameMarks, HasSameMarks, ValueMarks.Equal) against their contracts is discharged for all inputs and all loop iterations: results keep payload and type, carry exactly the union of the input marks, at most one marker layer.",
    note="Trusted: go/ssa lowering, the SMT solvers, prelude axioms on finite sets, maps of at most 2^40 entries; operation methods' mark prologues and stdlib functions are not yet under contract.",
    tech="contract-based deductive verification (SSA -> VCs -> z3/cvc5)", ref="§4 C04"),
+ 'C06':dict(text="Proof (shape level): the constructors under contract (NumberIntVal/UIntVal/FloatVal, ParseNumberVal, StringVal, ListVal, ListValEmpty, MapVal, MapValEmpty, TupleVal, ObjectVal, Object, ObjectWithOptionalAttrs, CanListVal, CanMapVal) return unmarked, known, non-null values whose type has the documented kind, element type (the dynamic placeholder only when every member is dynamically typed), tuple length and attribute set (NFC-normalized names), with a well-formed type; the marks functions keep a single marker layer with a non-empty mark set.",
+   note="Not covered: deep well-formedness of payloads (recursive wf over members), set values (SetVal/SetValEmpty have assumed contracts), conversions, decoders other than msgpack, gocty, stdlib outputs; NFC normalization is an uninterpreted idempotent function.",
+   tech="contract-based deductive verification (SSA -> VCs -> z3/cvc5)", ref="§4 C06"),
  'C07':dict(text="Proof: Type.Equals and all eight implementers compute structural equality ty_eq (kind, element type, attribute names/types, optional sets, tuple order/length, capsule identity); accessors have exact panic conditions; TestConformance/testConformance return no error exactly when conforms(given, want) holds (dynamic placeholders replaced, optional annotations disregarded) and at least one error otherwise; HasDynamicTypes is exactly 'a placeholder occurs inside'. All loops by inductive invariants, recursion by the function's own contract.",
    note="Equivalence (reflexive/symmetric/transitive) of ty_eq is a prelude axiom (meta-lemma M1); JSON serialization of types and WithoutOptionalAttributesDeep are not under contract; NFC normalization is an uninterpreted idempotent function.",
    tech="contract-based deductive verification (SSA -> VCs -> z3/cvc5), fuelled recursive spec predicates", ref="§4 C07"),
  'C10':dict(text="Proof: returnTypeForValues returns an argument error only with the index of an argument that really violates its parameter's declaration (null without AllowNull, non-conforming type), reports arity errors as plain errors, and reaches the Type callback only after every argument passed these checks; Call invokes the Impl callback only with an argument list that satisfies the declared contract of every positional and variadic parameter (no null / unknown / dynamically typed / marked-at-any-depth argument unless allowed, conforming types), returns NilVal with every error, converts callback panics through the recover block, and only passes well-formed mark sets on. Loops by inductive invariants; defer/recover modelled.",
    note="Assumed: callbacks return a well-formed type/value or an error; UnmarkDeep/ContainsMarked have their documented meaning (uninterpreted deep_unmark/deep_marked views); at most 2^20 arguments. Not yet under contract: that the short-circuit result is exactly UnknownVal(checked type) with all unhandled marks, RefineResult application, result conformance to the checked type (the code's own TestConformance check is on the verified path).",
    tech="contract-based deductive verification (SSA -> VCs -> z3/cvc5), callback contracts, recover modelling", ref="§4 C10"),
+ 'C17':dict(text="Proof for the MessagePack value decoder (unmarshal and its seven per-kind functions) and for Type.UnmarshalJSON, with every result of the third-party / encoding/json decoders left unconstrained (that is how 'every byte string' is rendered): no index, nil, type-assertion or explicit panic is reachable, every constructor and type-accessor precondition (non-empty, consistent element types, declared optional attributes, ...) holds at its call site, and a nil error implies a result whose type conforms to the requested type, is well-formed and carries well-formed marks; UnmarshalJSON returns an error or a well-formed type. Five defects found this way were repaired (NaN, empty array/map for non-empty tuple/object, repeated attribute, mixed dynamic element types, undeclared optional attribute); one is a listed finding.",
+   note="Assumed: requested types carry no optional-attribute annotations; set constructors (SetVal, CanSetVal) and unmarshalUnknownValue (refinement replay, defect F5 of DESIGN §5 still open) have assumed contracts; meta-lemma M3 on conformance; encoding/json's Decode yields well-formed types (it re-enters UnmarshalJSON). Not covered: the JSON value decoder and implied-type functions, memory bounds (make with a length taken from the input), stack depth.",
+   tech="contract-based deductive verification (SSA -> VCs -> z3/cvc5) with unconstrained external decoder results", ref="§4 C17"),
  'C20':dict(text="Proof of the frame part: for every function of packages cty, cty/set, cty/convert, cty/function (390 functions) each store, map update, copy, delete and each call to a callee with a write effect is shown to touch only objects the activation allocated itself or the single object named in a 'writes' clause of the listed mutable helpers; fresh-result clauses (Marks, Unmark, unify helpers, Refine) are proved. The quantifier over goroutine schedules is not explored (corollary argued in DESIGN.md).",
    note="Trusted: write effects of standard-library callees (spec/externals.ctr), append modelled as copy-on-append (spare-capacity aliasing not modelled), frame clauses of callees used even where a swept caller does not establish their functional preconditions; determinism and separation of set copies not yet claimed.",
    tech="contract-based deductive verification: zero-annotation frame sweep over SSA + writes/fresh contracts", ref="§4 C20"),
